@@ -30,6 +30,15 @@ def make(spec, lower, upper):
         g = make(spec["of"], lower, upper)
         a, w, big = spec["a"], spec["w"], spec["big"]
         return lambda y: (big if a < unit(y)[0] < a + w else g(y))
+    if k == "npgauss":       # a Gaussian well computed with numpy scalars: far from the centre np.exp underflows (harmlessly) to 0
+        import numpy as _np
+        c, kk, tr = spec["c"], spec["k"], spec.get("trend", 0.1)
+
+        def f(y):
+            u = unit(y)
+            d2 = _np.float64(sum((t - ci) ** 2 for t, ci in zip(u, c)))
+            return float(tr * u[0] - _np.exp(_np.float64(-kk) * d2) + _np.float64(1e-300) * _np.float64(1e-300) * d2)
+        return f
     if k == "ticks":         # integer-valued costs BEYOND 2**53 (Python ints): neighbouring values round to the same double
         g = make(spec["of"], lower, upper)
         base, sc = int(spec["base"]), spec["scale"]
